@@ -1,5 +1,6 @@
 import RlibModel.Lemmas.Writer
 import RlibModel.Props.C09Bridge
+import RlibModel.Lemmas.IoMulti
 /-!
 # C09 — Writer delivers exactly the formatted bytes in order; round-trips with Reader
 
@@ -316,6 +317,58 @@ theorem write_lines_then_read (c : Cfg) (hb : 39 ≤ c.buf) (ls : List ByteArray
         Reader.runScript fuel [.lines, .eof] (Reader.init BUF src) = [.out (.lines (ls.map txt)), .out (.bool true)] :=
   C09Bridge.write_lines_then_read c hb ls hok
 
+/-! ### Several live objects on one thread, the trait entry point, characters (wave 3; `Model/IoMulti.lean`)
+
+`m` case lines: up to 8 objects — Writers over their own sinks, Readers over their own sources — created, used
+interleaved, moved and dropped in any order; a writer is reached through its inherent API (`WCall.pub`) or through the
+public trait method `Writable::write(&v, &mut w)` (`WCall.tr`: no debug flush). `c` case lines: `write_char` … drop …
+`read::<char>()`. -/
+
+/-- The trait entry point `Writable::write(&v, &mut w)` and every inherent call, from any fill level, in either
+    profile: no panic, delivered ++ pending bytes grow by exactly the standard formatting, the buffer is not over-full. -/
+theorem call_inv (c : Cfg) (hb : 39 ≤ c.buf) (cl : IoMulti.WCall) (hv : cl.valid = true) (s0 : WState)
+    (h0 : s0.pend.size ≤ c.buf) :
+    ∃ s, IoMulti.runCall c s0 cl = .ok s ∧ s.sink ++ s.pend = s0.sink ++ s0.pend ++ cl.spec ∧ s.pend.size ≤ c.buf :=
+  IoMulti.runCall_spec c hb cl hv s0 h0
+
+/-- Flush-per-write build: every inherent call leaves nothing pending **whatever was pending before it** — in
+    particular the bytes a direct `Writable::write(&v, &mut w)` left in the buffer. -/
+theorem call_debug_flushed (c : Cfg) (hd : c.dbg = true) (cl : IoMulti.WCall) (h : cl.flushesInDebug = true)
+    (s s' : WState) (hr : IoMulti.runCall c s cl = .ok s') : s'.pend = ByteArray.empty :=
+  ByteArray.size_eq_zero_iff.mp (IoMulti.runCall_debug_flushed c hd cl h s s' hr)
+
+/-- What `drv_writer` prints as `M` for an `m` line is what it prints as `S`: for every history of valid calls on any
+    number of live writers and readers (any interleaving, any order of flushes, moves and drops), every `BUF_w ≥ 39` and
+    both profiles, the model (each object owns its buffer) shows exactly the specification trace — per writer the text of
+    the calls addressed to it, per reader C08's specification on its own input — and in a flush-per-write build no
+    inherent call leaves bytes pending. (`undef` = a `char` read with no byte left: outside C08's domain.) -/
+theorem multi_driver (c : Cfg) (hb : 39 ≤ c.buf) (ops : List IoMulti.MOp) (hv : IoMulti.validAll ops = true)
+    (hu : IoMulti.Ev.undef ∉ IoMulti.specMulti ops (fun _ => .none)) :
+    IoMulti.runMulti c ops (fun _ => .none) 0 none = (IoMulti.specMulti ops (fun _ => .none), none) :=
+  IoMulti.runMulti_spec c hb ops _ _ 0 (fun _ => by simp [IoMulti.Rel]) hv hu
+
+/-- Isolation: every text a writer shows in the specification trace (after `flush()` or at its drop) is the
+    concatenation of the standard formatting of the calls addressed to that writer since its creation, in a prefix of
+    the history — whatever happened to the other objects in between. -/
+theorem multi_isolated (ops : List IoMulti.MOp) (k : Nat) (t : ByteArray)
+    (h : IoMulti.Shown (IoMulti.specMulti ops (fun _ => .none)) k t) :
+    ∃ n, t = IoMulti.specCalls (IoMulti.callsOf k (ops.take n) []) :=
+  IoMulti.specMulti_isolated ops _ (fun _ => []) (fun j t hj => by simp at hj) k t h
+
+/-- What `drv_writer` prints as `M` for a `c` line (`IoMulti.readBackChars`: the Reader model, harness schedule `rc`,
+    on the Writer model's sink after the characters `codes` were written with `write_char` and the writer dropped) is
+    what it prints as `S`: one `read::<char>()` per non-whitespace byte returns it, then `is_eof()` is true. -/
+theorem readback_chars_driver (c : Cfg) (hb : 39 ≤ c.buf) (codes : List Nat) (rbuf : Nat) (hr : 0 < rbuf) (rc : Nat) :
+    ∃ s, runOps c (IoBridge.charOps codes) WState.init = .ok s ∧
+      IoMulti.readBackChars rbuf rc (txt (drop s).sink) = IoMulti.expectedChars codes := by
+  obtain ⟨s, e, _, ht, h⟩ := C09Bridge.write_chars_then_read c hb codes
+  refine ⟨s, e, ?_⟩
+  obtain ⟨h1, h2⟩ := IoBridge.harness_src rc (txt (drop s).sink)
+  have := h _ h2 h1 rbuf hr ((txt (drop s).sink).length + 1) (by rw [h1]; exact Nat.lt_succ_self _)
+  unfold IoMulti.readBackChars IoMulti.expectedChars
+  rw [ht] at this ⊢
+  exact this
+
 /-! ### Non-vacuity: the hypotheses are met by concrete, non-trivial instances -/
 
 -- the loop at the boundary of each width
@@ -375,5 +428,32 @@ example : ∃ s, runOps ⟨39, true⟩ demoOps WState.init = .ok s ∧
 example : ∃ st', writeAll 3 2 202 ⟨ByteArray.empty, 0⟩ (List.replicate 100 65).toByteArray = .ok st' ∧
     st'.data = ByteArray.empty ++ (List.replicate 100 65).toByteArray :=
   write_all_delivers 3 2 (by decide) _ _
+
+-- several live objects: writer 0 gets "ab" through the trait method (pending in BOTH profiles), writer 1 is created and
+-- written to meanwhile, a reader over "x 7" is alive and read from in between; writer 1 is dropped first
+def demoMulti : List IoMulti.MOp :=
+  [ .newW 0, .call 0 (.tr (.str "ab".toUTF8)), .newW 1, .newR 2 4 1 "x 7".toUTF8.data.toList,
+    .call 1 (.pub (.write (.int ⟨true, 8⟩ (-128)))), .read 2 (.read .chr), .call 0 (.pub (.wchar 99)), .move 0,
+    .call 1 (.tr (.seq false [.int ⟨false, 8⟩ 0, .int ⟨false, 8⟩ 255])), .read 2 (.read (.int ⟨false, 8⟩)),
+    .call 0 (.pub .flush), .drop 1, .read 2 .eof, .call 0 (.tr (.int ⟨false, 128⟩ (2 ^ 128 - 1))) ]
+example : IoMulti.validAll demoMulti = true := by decide
+example : IoMulti.specMulti demoMulti (fun _ => .none) =
+    [ .read 2 (.val (.chr 120)), .read 2 (.val (.int 7)), .flushed 0 "abc".toUTF8, .dropped 1 "-1280 255".toUTF8,
+      .read 2 (.bool true), .dropped 0 ("abc".toUTF8 ++ (decimalU (2 ^ 128 - 1)).toByteArray) ] := by decide +kernel
+example : IoMulti.runMulti ⟨39, true⟩ demoMulti (fun _ => .none) 0 none
+    = (IoMulti.specMulti demoMulti (fun _ => .none), none) :=
+  multi_driver ⟨39, true⟩ (by decide) demoMulti (by decide) (by decide +kernel)
+example : ∃ n, "abc".toUTF8 = IoMulti.specCalls (IoMulti.callsOf 0 (demoMulti.take n) []) :=
+  multi_isolated demoMulti 0 _ (Or.inl (by decide +kernel))
+-- the trait method leaves bytes pending in the flush-per-write build; the next inherent call flushes them too
+example : (match IoMulti.runCall ⟨39, true⟩ WState.init (.tr (.int ⟨false, 8⟩ 255)) with
+    | .ok s => s.pend.size | .error _ => 0) = 3 := by decide +kernel
+example : (IoMulti.WCall.pub (.wchar 99)).flushesInDebug = true := rfl
+-- characters, NUL and DEL included, written with `write_char` and read back one `read::<char>()` each
+example : ∃ s, runOps ⟨39, false⟩ (IoBridge.charOps [0, 32, 127, 65, 10, 1]) WState.init = .ok s ∧
+    IoMulti.readBackChars 1 3 (txt (drop s).sink) = IoMulti.expectedChars [0, 32, 127, 65, 10, 1] :=
+  readback_chars_driver ⟨39, false⟩ (by decide) _ 1 (by decide) 3
+example : IoMulti.expectedChars [0, 32, 127, 65, 10, 1] =
+    [.out (.val (.chr 0)), .out (.val (.chr 127)), .out (.val (.chr 65)), .out (.val (.chr 1)), .out (.bool true)] := by decide
 
 end Rlib.C09
